@@ -23,16 +23,18 @@ structure AStep (e : Env) (st : St) (d : Dev) (st' : St) (d' : Dev) (aN : Name) 
   routes : d'.routes = d.routes
   intfs : d'.intfs = d.intfs
   gName : st'.gName = st.gName
+  aclKeys : d'.acls.map (·.1) = d.acls.map (·.1)
 
 theorem AStep.refl {e : Env} {st : St} {d : Dev} (h : Sem e st d) (aN : Name) : AStep e st d st d aN :=
-  ⟨h, ⟨[], by simp, exec_nil d⟩, fun _ _ _ => rfl, fun _ h => h, fun _ h => h, fun _ h => h, fun _ _ => rfl, rfl, rfl, rfl, rfl⟩
+  ⟨h, ⟨[], by simp, exec_nil d⟩, fun _ _ _ => rfl, fun _ h => h, fun _ h => h, fun _ h => h, fun _ _ => rfl, rfl, rfl, rfl, rfl, rfl⟩
 
 theorem AStep.trans {e : Env} {s1 s2 s3 : St} {d1 d2 d3 : Dev} {aN : Name}
     (h1 : AStep e s1 d1 s2 d2 aN) (h2 : AStep e s2 d2 s3 d3 aN) : AStep e s1 d1 s3 d3 aN := by
   obtain ⟨c1, o1, e1⟩ := h1.out
   obtain ⟨c2, o2, e2⟩ := h2.out
   refine ⟨h2.sem, ⟨c1 ++ c2, by rw [o2, o1, List.append_assoc], exec_append_some e1 e2⟩, ?_, ?_, ?_, ?_, ?_,
-    h2.binds.trans h1.binds, h2.routes.trans h1.routes, h2.intfs.trans h1.intfs, h2.gName.trans h1.gName⟩
+    h2.binds.trans h1.binds, h2.routes.trans h1.routes, h2.intfs.trans h1.intfs, h2.gName.trans h1.gName,
+    h2.aclKeys.trans h1.aclKeys⟩
   · intro x hx hf
     rw [h2.stable x (h1.hasMono x hx) (hf.mono h1.grow), h1.stable x hx hf]
   · exact fun x hx => h2.hasMono x (h1.hasMono x hx)
@@ -42,7 +44,8 @@ theorem AStep.trans {e : Env} {s1 s2 s3 : St} {d1 d2 d3 : Dev} {aN : Name}
 
 theorem GStep.toAStep {e : Env} {st st' : St} {d d' : Dev} (h : GStep e st d st' d') (hn : st'.gName = st.gName) (aN : Name) :
     AStep e st d st' d' aN :=
-  ⟨h.sem, h.out, h.stable, h.hasMono, h.grow, h.readyMono, fun n' _ => by simp [linesOf, h.acls], h.binds, h.routes, h.intfs, hn⟩
+  ⟨h.sem, h.out, h.stable, h.hasMono, h.grow, h.readyMono, fun n' _ => by simp [linesOf, h.acls], h.binds, h.routes, h.intfs, hn,
+   by rw [h.acls]⟩
 
 theorem GStep.lines {e : Env} {st st' : St} {d d' : Dev} (h : GStep e st d st' d') (n : Name) : linesOf d' n = linesOf d n := by
   simp [linesOf, h.acls]
@@ -100,7 +103,7 @@ theorem lineCmd_astep {e : Env} {st1 st2 : St} {d1 d2 : Dev} {aN : Name} (h1 : S
   have hmm : ∀ g, membersOf d2 g = membersOf d1 g := fun g => by simp [membersOf, ho.groups]
   refine ⟨h1.transport ho.groups ?_ hn hr hg, ⟨[c], hout, exec_single hex⟩, fun x _ _ => hmm x,
     fun x hx => by rw [hh]; exact hx, fun x hx => by rw [hn]; exact hx, fun x hx => by rw [hr]; exact hx,
-    ho.others, ho.binds, ho.routes, ho.intfs, hg⟩
+    ho.others, ho.binds, ho.routes, ho.intfs, hg, ho.keys⟩
   unfold ModeRel
   rw [hmode, ho.mode]; rfl
 
@@ -158,7 +161,7 @@ theorem code_eq (st0 : St) (al bl : List Line) (cells : List MCell) (i j : Nat) 
 theorem astep_hit {e : Env} {st st' : St} {d d' : Dev} {aN : Name} (h : AStep e st d st' d' aN) (x : String) :
     AStep e st d (st'.hit x) d' aN :=
   ⟨⟨h.sem.mode, h.sem.dev, h.sem.untouched, h.sem.ready, h.sem.unready⟩, h.out, h.stable, h.hasMono, h.grow,
-   h.readyMono, h.others, h.binds, h.routes, h.intfs, h.gName⟩
+   h.readyMono, h.others, h.binds, h.routes, h.intfs, h.gName, h.aclKeys⟩
 
 /-- Every line of the current list belongs to a present cell (in terms of `encCell`). -/
 theorem masked_mem_enc (cells : List MCell) (mk : List String) (μ : List Bool) (x : NA.Acl.Line)
@@ -257,7 +260,8 @@ theorem opsFold_astep (e : Env) (hw : WF e) (aN : Name) (st0 : St) (al bl : List
           have hx := NA.Acl.exec1_add _ μ j' hj hl hμ hdist
           rw [hMj] at hx
           rw [← hdec] at hgrp ⊢
-          obtain ⟨d2, e2, l2, o2⟩ := refine_add d1 aN _ (decOf st0 al bl cells) _ _ _ hS1 hx hgrp (by
+          obtain ⟨d2, e2, l2, o2⟩ := refine_add d1 aN _ (decOf st0 al bl cells) _ _ _ hS1
+            (masked_ne_nil cells _ _ k hk hpk) hx hgrp (by
             intro x hxm
             obtain ⟨i, hi, _, rfl⟩ := masked_mem_enc _ _ _ _ hxm
             exact code_eq st0 al bl cells i j' hi hjc)
@@ -382,7 +386,7 @@ theorem opsFold_astep (e : Env) (hw : WF e) (aN : Name) (st0 : St) (al bl : List
       -- the step from `st` to the marked state changes marks only
       have a0 : AStep e st d (markDeletedLines st [al.getD ai default]) d aN :=
         ⟨hsem', ⟨[], by simp [markDeletedLines], exec_nil d⟩, fun _ _ _ => rfl, fun _ hx => hx, fun _ hx => hx,
-          fun _ hx => hx, fun _ _ => rfl, rfl, rfl, rfl, rfl⟩
+          fun _ hx => hx, fun _ _ => rfl, rfl, rfl, rfl, rfl, rfl⟩
       exact ⟨d1, astep_hit (a0.trans a1) _, p1.1, p1.2⟩
     obtain ⟨d1, a1, l1, r1⟩ := hstep
     obtain ⟨d2, a2, l2, i2⟩ := ih (fun op hop => hshape op (List.mem_cons_of_mem _ hop)) _ d1 a1.sem
